@@ -110,7 +110,7 @@ def build(ctx):
 
 def run(ctx):
     cases = common.shard(build(ctx), ctx.seed)
-    res = pool.pmap(_case, cases, chunk=4)
+    res = pool.pmap(_case, cases, chunk=4, timeout=1800)
     Vs = common.Violations(keep=6)
     schedules = 0
     capped = 0
